@@ -79,10 +79,25 @@ class L:
         if isinstance(e, ast.Call) and isinstance(e.func, ast.Name) and e.func.id == 'bool' and len(e.args) == 1:
             return '(!(%s).isEmpty)' % self.ex(e.args[0])
         if isinstance(e, ast.Call) and isinstance(e.func, ast.Name) and e.func.id in ('all', 'any') and len(e.args) == 1 \
-                and isinstance(e.args[0], ast.GeneratorExp) and len(e.args[0].generators) == 1 and not e.args[0].generators[0].ifs:
-            g = e.args[0].generators[0]
+                and isinstance(e.args[0], (ast.GeneratorExp, ast.ListComp)) and all(not g.ifs and not g.is_async for g in e.args[0].generators):
+            inner = self.ex(e.args[0].elt)
+            for g in reversed(e.args[0].generators):       # `for P in IT for Q in IT2`: nested, outermost first
+                itx, en = self.it(g.iter)
+                inner = '(%s.%s (fun %s => %s))' % (itx, e.func.id, self.pat(g.target, en), inner)
+            return inner
+        if isinstance(e, ast.ListComp) and e.generators and all(not g.is_async for g in e.generators) \
+                and all(not g.ifs for g in e.generators[:-1]) and len(e.generators[-1].ifs) <= 1:
+            # [E for P in IT for Q in IT2 if C]: nested flatMap, innermost filterMap / map
+            g = e.generators[-1]
             itx, en = self.it(g.iter)
-            return '(%s.%s (fun %s => %s))' % (itx, e.func.id, self.pat(g.target, en), self.ex(e.args[0].elt))
+            if g.ifs:
+                inner = '(%s).filterMap (fun %s => if %s then some %s else none)' % (itx, self.pat(g.target, en), self.ex(g.ifs[0]), self.ex(e.elt))
+            else:
+                inner = '(%s).map (fun %s => %s)' % (itx, self.pat(g.target, en), self.ex(e.elt))
+            for g in reversed(e.generators[:-1]):
+                itx, en = self.it(g.iter)
+                inner = '(%s).flatMap (fun %s => %s)' % (itx, self.pat(g.target, en), inner)
+            return '(' + inner + ')'
         if isinstance(e, ast.Tuple) and len(e.elts) == 2:
             return '(%s, %s)' % (self.ex(e.elts[0]), self.ex(e.elts[1]))
         raise Unsupported(ast.unparse(e))
@@ -90,6 +105,10 @@ class L:
     # -- loop idioms ------------------------------------------------------------------------------
     def body(self, b):
         b = [s for s in b if not (isinstance(s, ast.Expr) and isinstance(s.value, ast.Constant))]
+        # leading guards `if C: return E` (no else) in front of anything recognised below
+        if len(b) > 1 and isinstance(b[0], ast.If) and not b[0].orelse and len(b[0].body) == 1 and isinstance(b[0].body[0], ast.Return) \
+                and b[0].body[0].value is not None:
+            return '(if %s then %s else %s)' % (self.ex(b[0].test), self.ex(b[0].body[0].value), self.body(b[1:]))
         # expression function
         if len(b) == 1 and isinstance(b[0], ast.Return):
             return self.ex(b[0].value)
